@@ -961,11 +961,15 @@ spif_dlinked_list_reverse(spif_dlinked_list_t self)
     spif_dlinked_list_item_t current, tmp;
 
     ASSERT_RVAL(!SPIF_LIST_ISNULL(self), FALSE);
+    if (SPIF_DLINKED_LIST_ITEM_ISNULL(self->head)) {
+        return TRUE;
+    }
     for (current = self->head; current; ) {
         tmp = current;
         current = current->next;
         SWAP(tmp->prev, tmp->next);
     }
+    self->tail = self->head;
     self->head = tmp;
     return TRUE;
 }
